@@ -346,6 +346,7 @@ def main():
         else:
             obs, fails = evaluate(mod, prop, [case], hs, work, 'replay')
         print('observation:', json.dumps(obs[0])[:2000])
+        fails = [f for f in fails if f[1] != 1]          # code 1 is the informational layer, never a violation
         if fails:
             print('still failing: code %d (%s)' % (fails[0][1], mod.CODES.get(fails[0][1], '?')))
             print('VIOLATION property=%s replay=%s' % (prop, args.replay))
